@@ -56,7 +56,7 @@ def expand_reads(names, stmts_by_out):
 
 
 def enc(p):
-    return p.replace("%", "%25").replace(" ", "%20")
+    return p.replace("%", "%25").replace(" ", "%20").replace("\t", "%09")
 
 
 def depfile_of(s):
